@@ -694,11 +694,11 @@ Proof.
     - rewrite (send_other_den _ _ _ _ _ _ a E2 Hlp). now apply (mint_other_den _ _ _ _ a M).
     - now apply (mint_other_den _ _ _ _ a M).
     - now apply (mint_other_den _ _ _ _ a M). }
-  destruct (if 0 <? d_premint d then match send MOD (d_team d) (d_lp d) (d_premint d) l2 with Ok l => Ok l | _ => Panic "premint" end else Ok l2)
+  destruct (if 0 <? d_premint d then match send MOD (acct (d_team d)) (d_lp d) (d_premint d) l2 with Ok l => Ok l | _ => Panic "premint" end else Ok l2)
     as [l3| |] eqn:E3; [|discriminate|discriminate]. cbn [bind] in H. inversion H; subst; clear H. simpl.
   assert (L3 : forall a, bal a UKEX l3 = bal a UKEX (led st)).
   { intros a. destruct (0 <? d_premint d).
-    - destruct (send MOD (d_team d) (d_lp d) (d_premint d) l2) eqn:E4; inversion E3; subst.
+    - destruct (send MOD (acct (d_team d)) (d_lp d) (d_premint d) l2) eqn:E4; inversion E3; subst.
       rewrite (send_other_den _ _ _ _ _ _ a E4 Hlp). apply L2.
     - inversion E3; subst. apply L2. }
   rewrite (covered_own st _ I HnN), del_all_own.
@@ -772,7 +772,7 @@ Proof.
   assert (Hs1 : d_status d <> 0) by lia.
   set (pay := ((wrap64 (x_ptime (d_x d) + x_drip (d_x d)) <? now st) && (0 <? d_postmint d))%bool) in *.
   assert (P : forall s1, (if pay then if d_premint d <? 0 then Panic "negative coin amount"
-                 else match send MOD (d_team d) (d_lp d) (d_premint d) (led st) with
+                 else match send MOD (acct (d_team d)) (d_lp d) (d_premint d) (led st) with
                       | Ok l => Ok (mkState (now st) (set_dapp d (dapps st)) (bonds st) l)
                       | _ => Panic "postmint" end else Ok st) = Ok s1 ->
               Inv s1 /\ now s1 = now st /\ (forall m, m <> d_name d -> find_dapp m (dapps s1) = find_dapp m (dapps st))
@@ -780,7 +780,7 @@ Proof.
               /\ find_dapp (d_name d) (dapps s1) = Some d).
   { intros s1 H1. destruct pay; [|inversion H1; subst; auto 7].
     destruct (d_premint d <? 0); [discriminate|].
-    destruct (send MOD (d_team d) (d_lp d) (d_premint d) (led st)) as [l| |] eqn:E; inversion H1; subst; clear H1. simpl.
+    destruct (send MOD (acct (d_team d)) (d_lp d) (d_premint d) (led st)) as [l| |] eqn:E; inversion H1; subst; clear H1. simpl.
     assert (L : forall a, bal a UKEX l = bal a UKEX (led st)) by (intros a; eapply send_other_den; eauto).
     split; [apply (relabel_inv st d d l I F eq_refl eq_refl Hs1 L)|]. split; [reflexivity|]. split.
     - intros m Hm. rewrite find_set. apply not_eq_sym, String.eqb_neq in Hm. now rewrite Hm.
